@@ -35,7 +35,16 @@ def simple_run(prop, spec, workdir, tier, seed, t0):
 def replay(prop, spec, workdir, path, seed):
     rec = json.load(open(path))
     binary = os.path.join(workdir, rec.get("binary") or spec["binary"])
-    driver.go_build("./cmd/" + os.path.basename(binary), binary, rec.get("flavor") or spec.get("flavor", "plain"), driver.HARNESS)
+    flavor = rec.get("flavor") or spec.get("flavor", "plain")
+    if os.path.basename(binary) == "wl-gen":
+        # the generated corpus depends on tier and seed: regenerate the one the violation was found with
+        try:
+            binary, _ = build_corpus(workdir, rec.get("tier", "quick"), int(rec.get("seed", seed)), spec.get("corpus_mode", "behave"), flavor)
+        except driver.Inconclusive as e:
+            print("INCONCLUSIVE property=%s reason=%s" % (prop, str(e).replace("\n", " | ")[:1500]))
+            return 2
+    else:
+        driver.go_build("./cmd/" + os.path.basename(binary), binary, flavor, driver.HARNESS)
     out = os.path.join(workdir, "replay-result.json")
     p = subprocess.run([binary, "-prop", prop, "-replay", os.path.abspath(path), "-out", out], env=driver.GOENV,
                        cwd=workdir, stdout=subprocess.PIPE, stderr=subprocess.STDOUT, text=True, timeout=1800)
